@@ -1,4 +1,5 @@
 import IslaVerif.Model.Formats
+import IslaVerif.Proofs.C04
 /-
 Declarative (Prop-valued) specifications for the executable format checkers of Model/Formats.lean
 and soundness / completeness theorems relating the two.
@@ -1192,5 +1193,102 @@ theorem xmlOk_balanced (s : List Char) (h : xmlOk s = true) :
 
 example : ∃ toks, Tokenizes "<a xmlns:p=\"u\"><p:b x=\"1\" y=\"2\"/>t<c></c></a>".toList toks ∧ Element [] toks :=
   (xmlOk_iff _).1 (by decide +kernel)
+
+/-! ### reST (tree level): section titles, link targets -/
+
+/-- the nodes of `t` labelled `sym` are the subtrees of `t` (at some path) carrying that label -/
+theorem mem_nodesOf_iff (t : DTree) (sym : String) (n : DTree) :
+    n ∈ nodesOf t sym ↔ ∃ p, t.get p = some n ∧ n.sym = sym := by
+  simp only [nodesOf, List.mem_map, List.mem_filter, beq_iff_eq, Prod.exists]
+  constructor
+  · rintro ⟨p, x, ⟨hm, hs⟩, rfl⟩
+    exact ⟨p, (C04.mem_paths_iff t p x).1 hm, hs⟩
+  · rintro ⟨p, hg, hs⟩
+    exact ⟨p, n, ⟨(C04.mem_paths_iff t p n).2 hg, hs⟩, rfl⟩
+
+theorem titleKidsOk_iff (g : Grammar) (ks : List DTree) :
+    (match ks with
+      | [ti, _, ul] => decide (0 < (ti.yieldC g).length) && decide ((ti.yieldC g).length ≤ (ul.yieldC g).length)
+      | _ => false) = true ↔
+      ∃ ti sep ul, ks = [ti, sep, ul] ∧ 0 < (ti.yieldC g).length ∧
+        (ti.yieldC g).length ≤ (ul.yieldC g).length := by
+  rcases ks with _ | ⟨a, _ | ⟨b, _ | ⟨c, _ | ⟨d, r⟩⟩⟩⟩ <;> simp
+  constructor
+  · intro h
+    exact ⟨a, b, c, ⟨rfl, rfl, rfl⟩, h⟩
+  · rintro ⟨ti, sep, ul, ⟨rfl, rfl, rfl⟩, h⟩
+    exact h
+
+/-- every `<section-title>` node has exactly three children (title text, line break, underline); the
+title is non-empty and the underline is at least as long as the title -/
+theorem restUnderlineOk_iff (g : Grammar) (t : DTree) :
+    restUnderlineOk g t = true ↔
+      ∀ n ∈ nodesOf t "<section-title>", ∃ ti sep ul, n.kids = [ti, sep, ul] ∧
+        0 < (ti.yieldC g).length ∧ (ti.yieldC g).length ≤ (ul.yieldC g).length := by
+  simp only [restUnderlineOk, List.all_eq_true]
+  constructor
+  · intro h n hn
+    exact (titleKidsOk_iff g n.kids).1 (h n hn)
+  · intro h n hn
+    exact (titleKidsOk_iff g n.kids).2 (h n hn)
+
+/-- the identifiers below the `sym` nodes: the strings of the `<id>` nodes inside a `sym` node -/
+theorem mem_idsBelow_iff (g : Grammar) (t : DTree) (sym : String) (s : List Char) :
+    s ∈ idsBelow g t sym ↔ ∃ n ∈ nodesOf t sym, ∃ i ∈ nodesOf n "<id>", i.yieldC g = s := by
+  simp only [idsBelow, List.mem_flatMap, List.mem_map]
+
+/-- link targets are pairwise distinct (as a list: no identifier is defined twice) -/
+theorem restLabelsUnique_iff (g : Grammar) (t : DTree) :
+    restLabelsUnique g t = true ↔ (idsBelow g t "<label>").Nodup := by
+  simp only [restLabelsUnique, noDup_iff]
+
+/-- every referenced identifier is a defined link target -/
+theorem restRefsDefined_iff (g : Grammar) (t : DTree) :
+    restRefsDefined g t = true ↔
+      ∀ s, (s ∈ idsBelow g t "<internal_reference>" ∨ s ∈ idsBelow g t "<internal_reference_nospace>") →
+        s ∈ idsBelow g t "<label>" := by
+  simp only [restRefsDefined, List.all_eq_true, List.mem_append, List.contains_iff_mem]
+
+/-! examples: a grammar fragment, a section title "ab" underlined by "==" / by "=", and a document
+with two link targets and a reference -/
+
+def exG : Grammar :=
+  [("<section-title>", [["<title-text>", "\n", "<underline>"]]), ("<title-text>", [["ab"]]),
+   ("<underline>", [["=="], ["="]]), ("<doc>", [["<label>", "<label>", "<internal_reference>"]]),
+   ("<label>", [["_", "<id>", ":"]]), ("<internal_reference>", [["<id>", "_"]]), ("<id>", [["x"], ["y"], ["z"]])]
+
+def exTitle (ul : String) : DTree :=
+  .node 0 "<section-title>" [.node 1 "<title-text>" [.node 2 "ab" []], .node 3 "\n" [],
+    .node 4 "<underline>" [.node 5 ul []]]
+
+def exId (i : Nat) (s : String) : DTree := .node i "<id>" [.node (i + 1) s []]
+
+def exDoc (l₁ l₂ r : String) : DTree :=
+  .node 0 "<doc>" [.node 1 "<label>" [.node 2 "_" [], exId 3 l₁, .node 5 ":" []],
+    .node 6 "<label>" [.node 7 "_" [], exId 8 l₂, .node 10 ":" []],
+    .node 11 "<internal_reference>" [exId 12 r, .node 14 "_" []]]
+
+example : exId 8 "y" ∈ nodesOf (exDoc "x" "y" "x") "<id>" :=
+  (mem_nodesOf_iff _ _ _).2 ⟨[1, 1], rfl, rfl⟩
+
+example : restUnderlineOk exG (exTitle "==") = true ∧ restUnderlineOk exG (exTitle "=") = false := by
+  decide +kernel
+
+example : idsBelow exG (exDoc "x" "y" "x") "<label>" = ["x".toList, "y".toList] := by decide +kernel
+
+example : restLabelsUnique exG (exDoc "x" "y" "x") = true ∧ restLabelsUnique exG (exDoc "x" "x" "x") = false := by
+  decide +kernel
+
+example : restRefsDefined exG (exDoc "x" "y" "y") = true ∧ restRefsDefined exG (exDoc "x" "y" "z") = false := by
+  decide +kernel
+
+example : ∀ s, (s ∈ idsBelow exG (exDoc "x" "y" "y") "<internal_reference>" ∨
+      s ∈ idsBelow exG (exDoc "x" "y" "y") "<internal_reference_nospace>") →
+    s ∈ idsBelow exG (exDoc "x" "y" "y") "<label>" :=
+  (restRefsDefined_iff _ _).1 (by decide +kernel)
+
+example : ∀ n ∈ nodesOf (exTitle "==") "<section-title>", ∃ ti sep ul, n.kids = [ti, sep, ul] ∧
+    0 < (ti.yieldC exG).length ∧ (ti.yieldC exG).length ≤ (ul.yieldC exG).length :=
+  (restUnderlineOk_iff _ _).1 (by decide +kernel)
 
 end IslaVerif.Formats
